@@ -14,6 +14,6 @@ variable {m n : Nat} [NeZero m] [NeZero n]
 
 theorem tie_std_weights (A : Mat m n α) : (Gen.std_weights ⟨A⟩).v = Weighters.stdWeights A := by
   funext j
-  simp only [Gen.std_weights, Np.std, Np.sum, Np.divide, Bc.zw, Red.red, Weighters.stdWeights, Weighters.normSum, Weighters.colStd,
+  simp only [Gen.std_weights, Np.std, Np.sum, Np.sum_all, SumAll.sumAll, Np.divide, Bc.zw, Red.red, Weighters.stdWeights, Weighters.normSum, Weighters.colStd,
     Weighters.colMean, Weighters.tab_get]
 end Skc.Tie
